@@ -401,8 +401,8 @@ class Vector():
 	def fillna(self, value):
 		dtype = self.schema()
 
-		# Type check and promotion (same pattern as __setitem__)
-		if dtype is not None and value is not None:
+		# Type check and promotion (same pattern as __setitem__: an object vector accepts any value)
+		if dtype is not None and value is not None and dtype.kind is not object:
 			try:
 				validate_scalar(value, dtype)
 			except TypeError:
@@ -434,8 +434,8 @@ class Vector():
 		new_nullable = any(x is None for x in out)
 
 		# Construct new dtype
-		if dtype is None:
-			# Mixed type → leave as None (dtype inference will happen)
+		if dtype is None or dtype.kind is object:
+			# Untyped / object (all-None, mixed) → leave as None (dtype inference will happen)
 			new_dtype = None
 		else:
 			new_dtype = dtype.with_nullable(nullable=new_nullable)
@@ -462,7 +462,9 @@ class Vector():
 		>>> v.dropna()
 		Vector([1, 3, 5])
 		"""
-		return Vector(tuple(elem for elem in self._underlying if elem is not None), dtype=self._dtype.with_nullable(False))
+		# (an untyped empty vector has no dtype to make non-nullable)
+		return Vector(tuple(elem for elem in self._underlying if elem is not None),
+			dtype=self._dtype.with_nullable(False) if self._dtype is not None else None)
 
 	def isna(self):
 		"""
